@@ -2,13 +2,16 @@ package verifchecks
 
 import (
 	"fmt"
+	"sync"
 	"testing"
+	"time"
 
 	"pgregory.net/rapid"
 
 	kit "github.com/mimiro-io/datahub/internal/verifkit"
 
 	"github.com/mimiro-io/datahub/internal/server"
+	"github.com/mimiro-io/datahub/internal/verifhook"
 )
 
 // snapshot of the current-state answers right after write op k.
@@ -275,4 +278,160 @@ func containsStr(s, sub string) bool {
 		}
 	}
 	return false
+}
+
+// C06, forced schedule: a write that is acknowledged after the instant t must
+// not change what an as-of-t query returns, also when the writer had already
+// arrived (and was waiting for the dataset) before t. The harness owns the
+// schedule: writer 1 is parked after its data commit, still holding the
+// dataset's write lock (hook point store.afterCommit / txn.afterCommit);
+// writer 2 (batch or transaction touching the same dataset) is started and the
+// lock trace shows it waiting for that dataset; then t = now and the
+// current-state answers S are taken; writer 1 is released, both finish, and
+// every as-of-t lookup and relation query is compared with S.
+func TestVerif_C06_overlap(t *testing.T) {
+	defer kit.S().Flush()
+	defer kit.CleanupScratch()
+	rapid.Check(t, func(t *rapid.T) {
+		g := newGM(t, []string{"a", "b", "c"}, kit.GenCfg{MaxRefs: 3})
+		defer g.close()
+		defer verifhook.Reset()
+		defer verifhook.SetLockTracer(nil)
+		n := rapid.IntRange(0, 5).Draw(t, "prefix")
+		for i := 0; i < n; i++ {
+			g.t = t
+			if rapid.IntRange(0, 2).Draw(t, "kind") == 0 {
+				g.applyTxn(g.genTxnOp())
+			} else {
+				g.applyBatch(g.genBatchOp())
+			}
+		}
+		g.t = t
+		// writer 1: a batch (parked at store.afterCommit) or a transaction (txn.afterCommit)
+		w1 := g.genBatchOp()
+		point := "store.afterCommit"
+		if rapid.IntRange(0, 3).Draw(t, "w1txn") == 0 {
+			w1 = g.genTxnOp()
+			point = "txn.afterCommit"
+		}
+		held := map[string]bool{}
+		if w1.K == "txn" {
+			for ds := range w1.Parts {
+				held[ds] = true
+			}
+		} else {
+			held[w1.DS] = true
+		}
+		// writer 2 touches a dataset writer 1 holds
+		var w2 Op
+		for tries := 0; ; tries++ {
+			if rapid.IntRange(0, 2).Draw(t, "w2txn") == 0 {
+				w2 = g.genTxnOp()
+			} else {
+				w2 = g.genBatchOp()
+			}
+			hit := held[w2.DS]
+			for ds := range w2.Parts {
+				hit = hit || held[ds]
+			}
+			if hit {
+				break
+			}
+			if tries > 20 {
+				t.Skip("no overlapping second writer drawn")
+			}
+		}
+		// bookkeeping (history, classes, F04 shape) for both writers; execution is below
+		h := g.h
+		g.h = nil
+		for _, w := range []Op{w1, w2} {
+			if w.K == "txn" {
+				g.applyTxn(w)
+			} else {
+				g.applyBatch(w)
+			}
+		}
+		g.h = h
+		kit.Journal(g.hist)
+		defer kit.JournalDone()
+
+		parked, release := make(chan struct{}), make(chan struct{})
+		var once sync.Once
+		verifhook.Reset()
+		verifhook.SetCallback(point, func(hit int) {
+			if hit == 1 {
+				once.Do(func() { close(parked); <-release })
+			}
+		})
+		var tmu sync.Mutex
+		waiting := false
+		var g1 int64
+		verifhook.SetLockTracer(func(ev, kind, id string, gid int64) {
+			tmu.Lock()
+			defer tmu.Unlock()
+			if kind != "ds" {
+				return
+			}
+			if ev == "acquired" && g1 == 0 {
+				g1 = gid
+			}
+			if ev == "acquire" && g1 != 0 && gid != g1 && held[id] {
+				waiting = true
+			}
+		})
+		e1, e2 := make(chan error, 1), make(chan error, 1)
+		go func() { e1 <- execOp(h, w1) }()
+		select {
+		case <-parked:
+		case err := <-e1:
+			// nothing was stored (all elements identical to the current versions): no commit, no parking
+			if err != nil {
+				g.fail("writer 1: %v", err)
+			}
+			t.Skip("writer 1 stored nothing")
+		case <-time.After(20 * time.Second):
+			kit.S().Inconcl()
+			close(release)
+			t.Skip("writer 1 did not reach the pause point (inconclusive)")
+		}
+		go func() { e2 <- execOp(h, w2) }()
+		deadline := time.Now().Add(10 * time.Second)
+		for {
+			tmu.Lock()
+			w := waiting
+			tmu.Unlock()
+			if w {
+				break
+			}
+			if time.Now().After(deadline) {
+				kit.S().Inconcl()
+				close(release)
+				<-e1
+				<-e2
+				t.Skip("writer 2 was not seen waiting for the dataset (inconclusive)")
+			}
+			time.Sleep(200 * time.Microsecond)
+		}
+		time.Sleep(2 * time.Millisecond) // writer 2 is blocked on the mutex by now
+		at := time.Now().UnixNano()
+		s := g.takeSnap(len(g.hist)-1, at, at)
+		close(release)
+		for _, c := range []chan error{e1, e2} {
+			select {
+			case err := <-c:
+				if err != nil {
+					g.fail("writer failed: %v", err)
+				}
+			case <-time.After(30 * time.Second):
+				g.fail("WRITER-HANGS: a writer did not finish within 30s after the first one was released")
+			}
+		}
+		verifhook.Reset()
+		verifhook.SetLockTracer(nil)
+		lim := kit.GenLimits(t, false)
+		nq := g.checkAsOf([]*snap{s}, 0, 0, lim)
+		kit.S().AddExtra("asof_queries_compared", nq)
+		cls := append(g.classes(), "overlap-w1-"+w1.K, "overlap-w2-"+w2.K)
+		kit.S().Case(g.hist, true, cls...)
+	})
 }
